@@ -74,10 +74,13 @@ Proof.
 Qed.
 
 (* op_facts at every split of a well-formed block *)
-Lemma facts_of_wf : forall c l p o s,
-  wf_prog l -> io_ok l -> zconsts c = zero_consts l -> l = p ++ o :: s -> op_facts c l o s.
+Lemma facts_gen : forall c (FR : value -> Z -> Prop) l p o s,
+  wf_prog l -> io_ok l ->
+  (forall o' x y, In o' l -> In (x, y) (s_io o') -> ~ In y (zconsts c)) ->
+  (forall o' x y, In o' l -> In (x, y) (s_io o') -> forall r, (FR x r -> FR y r) /\ (FR y r -> FR x r)) ->
+  l = p ++ o :: s -> op_facts c FR o s.
 Proof.
-  intros c l p o s Hwf Hio Hz Hl.
+  intros c FR l p o s Hwf Hio Hnz Htie Hl.
   pose proof (wf_nodup l Hwf) as Hnd. rewrite Hl in Hnd. rewrite flat_map_app in Hnd. simpl in Hnd.
   pose proof (NoDup_app_r _ _ Hnd) as Hnd2.
   assert (Ho : In o l). { rewrite Hl. apply in_or_app. right. left. reflexivity. }
@@ -89,15 +92,92 @@ Proof.
     + intro Hc. apply Hn. apply defined_in_cons. right. exact Hc.
   - intros d Hd Hc. apply defined_in_flat in Hc. exact (NoDup_app_disjoint _ _ Hnd2 d Hd Hc).
   - exact (proj2 (Hio p o s Hl)).
-  - intros x y Hin Hc. rewrite Hz in Hc. destruct (zero_consts_kind l y Hc) as [o' [Ho' [Hk [t Hout]]]].
-    destruct (wf_kind l Hwf o' Ho' Hk) as [Hio' _].
-    assert (Heq : o = o').
-    { apply (nodup_defs_inj l o o' y (wf_nodup l Hwf) Ho Ho').
-      - unfold defs, sop_results. apply in_or_app. right. apply in_map_iff. exists (x, y). split; [reflexivity | exact Hin].
-      - unfold defs, sop_results. apply in_or_app. left. rewrite Hout. left. reflexivity. }
-    subst o'. rewrite Hio' in Hin. destruct Hin.
-  - intros x y Hin. exists o. split; assumption.
+  - intros x y Hin. exact (Hnz o x y Ho Hin).
+  - intros x y Hin. exact (Htie o x y Ho Hin).
 Qed.
+
+Lemma io_not_zconst : forall l, wf_prog l -> forall o x y, In o l -> In (x, y) (s_io o) -> ~ In y (zero_consts l).
+Proof.
+  intros l Hwf o x y Ho Hin Hc. destruct (zero_consts_kind l y Hc) as [o' [Ho' [Hk [t Hout]]]].
+  destruct (wf_kind l Hwf o' Ho' Hk) as [Hio' _].
+  assert (Heq : o = o').
+  { apply (nodup_defs_inj l o o' y (wf_nodup l Hwf) Ho Ho').
+    - unfold defs, sop_results. apply in_or_app. right. apply in_map_iff. exists (x, y). split; [reflexivity | exact Hin].
+    - unfold defs, sop_results. apply in_or_app. left. rewrite Hout. left. reflexivity. }
+  subst o'. rewrite Hio' in Hin. destruct Hin.
+Qed.
+
+Lemma forced_tie : forall t0 l o x y, In o l -> In (x, y) (s_io o) ->
+  forall r, (forced t0 l x r -> forced t0 l y r) /\ (forced t0 l y r -> forced t0 l x r).
+Proof.
+  intros t0 l o x y Ho Hin r. assert (Ht : tied l x y) by (exists o; split; assumption).
+  split; intro H; [exact (F_res t0 l x y r Ht H) | exact (F_opnd t0 l x y r Ht H)].
+Qed.
+
+Lemma facts_of_wf : forall c t0 l p o s,
+  wf_prog l -> io_ok l -> zconsts c = zero_consts l -> l = p ++ o :: s -> op_facts c (forced t0 l) o s.
+Proof.
+  intros c t0 l p o s Hwf Hio Hz Hl. apply (facts_gen c (forced t0 l) l p o s Hwf Hio); [| |exact Hl].
+  - intros o' x y Ho' Hin. rewrite Hz. exact (io_not_zconst l Hwf o' x y Ho' Hin).
+  - intros o' x y Ho' Hin. exact (forced_tie t0 l o' x y Ho' Hin).
+Qed.
+
+(* the walk over a segment q of a (possibly virtual) block l, started from any state that satisfies the
+   invariant at the point below the segment *)
+Section WalkFrom.
+  Variable c : cfg.
+  Variable t0 : value -> option Z.
+  Variable FR : value -> Z -> Prop.
+  Hypothesis FR_pre : forall v r, t0 v = Some r -> FR v r.
+  Variable l : list sop.
+  Hypothesis Hwf : wf_prog l.
+  Hypothesis Hio : io_ok l.
+  Hypothesis Hnz : forall o' x y, In o' l -> In (x, y) (s_io o') -> ~ In y (zconsts c).
+  Hypothesis Htie : forall o' x y, In o' l -> In (x, y) (s_io o') -> forall r, (FR x r -> FR y r) /\ (FR y r -> FR x r).
+  Notation Inv := (Inv c t0 FR).
+
+  Lemma walk_from : forall q s0 p a0 a, l = p ++ q ++ s0 ->
+    Inv (live s0) Enone (ment s0) a0 -> (forall v, live s0 v -> exists r, ty a0 v = Some r) ->
+    allocate_sops c q a0 = Ok a ->
+    Inv (live (q ++ s0)) Enone (ment (q ++ s0)) a
+    /\ (forall v, live (q ++ s0) v -> exists r, ty a v = Some r) /\ mono a0 a.
+  Proof.
+    induction q as [|o q IH]; intros s0 p a0 a Hl HI0 Hall0 Hrun.
+    - unfold allocate_sops in Hrun. simpl in Hrun. inversion Hrun; subst a. simpl.
+      split; [exact HI0|]. split; [exact Hall0 | intros w r H; exact H].
+    - rewrite allocate_sops_cons in Hrun.
+      destruct (allocate_sops c q a0) as [a1|e] eqn:E1; simpl in Hrun; [|discriminate].
+      assert (Hl1 : l = (p ++ [o]) ++ q ++ s0). { rewrite <- app_assoc. exact Hl. }
+      destruct (IH s0 (p ++ [o]) a0 a1 Hl1 HI0 Hall0 E1) as [HI1 [Hall1 Hm1]].
+      assert (Hl2 : l = p ++ o :: (q ++ s0)) by exact Hl.
+      pose proof (facts_gen c FR l p o (q ++ s0) Hwf Hio Hnz Htie Hl2) as F.
+      destruct (op_step c t0 FR FR_pre o (q ++ s0) a1 a F HI1 Hall1 Hrun) as [HI2 [Hall2 [Hm2 _]]].
+      split; [exact HI2|]. split; [exact Hall2|]. intros w r H. apply Hm2. apply Hm1. exact H.
+  Qed.
+
+  (* the head operation of the segment: its definitions are allocated and clash with nothing live after it *)
+  Lemma walk_head : forall o q s0 p a0 a, l = p ++ (o :: q) ++ s0 ->
+    Inv (live s0) Enone (ment s0) a0 -> (forall v, live s0 v -> exists r, ty a0 v = Some r) ->
+    allocate_sops c (o :: q) a0 = Ok a ->
+    (forall d, In d (defs o) -> exists r, ty a d = Some r)
+    /\ (forall d v r, In d (defs o) -> live (q ++ s0) v -> d <> v -> ty a d = Some r -> ty a v = Some r ->
+          Pset t0 r \/ (zero_rule c = true /\ r = 0))
+    /\ (forall x y, In (x, y) (s_io o) -> ty a x = ty a y)
+    /\ (forall v r, live (q ++ s0) v -> ty a v = Some r -> Pset t0 r -> FR v r).
+  Proof.
+    intros o q s0 p a0 a Hl HI0 Hall0 Hrun. simpl in Hl.
+    rewrite allocate_sops_cons in Hrun.
+    destruct (allocate_sops c q a0) as [a1|e] eqn:E1; simpl in Hrun; [|discriminate].
+    assert (Hl1 : l = (p ++ [o]) ++ q ++ s0). { rewrite <- app_assoc. exact Hl. }
+    destruct (walk_from q s0 (p ++ [o]) a0 a1 Hl1 HI0 Hall0 E1) as [HI1 [Hall1 Hm1]].
+    pose proof (facts_gen c FR l p o (q ++ s0) Hwf Hio Hnz Htie Hl) as F.
+    destruct (op_step c t0 FR FR_pre o (q ++ s0) a1 a F HI1 Hall1 Hrun) as [_ [_ [Hm2 [Hd [Hh [Ht _]]]]]].
+    split; [exact Hd|]. split; [exact Hh|]. split; [exact Ht|].
+    intros v r Hv Hr HP. destruct HI1 as [_ [_ [_ [_ H5]]]].
+    destruct (Hall1 v Hv) as [r1 Hr1]. pose proof (Hm2 v r1 Hr1) as E. rewrite Hr in E. inversion E; subst r1.
+    exact (H5 v r Hv Hr1 HP).
+  Qed.
+End WalkFrom.
 
 Section Walk.
   Variable c : cfg.
@@ -107,11 +187,13 @@ Section Walk.
   Hypothesis Hwf : wf_prog l.
   Hypothesis Hio : io_ok l.
   Hypothesis Hz : zconsts c = zero_consts l.
-  Hypothesis Hsok0 : sok c t0 l a0.
+  Hypothesis Hsok0 : sok c t0 a0.
   Hypothesis Hty0 : ty a0 = t0.
 
-  Notation Inv := (Inv c t0 l).
+  Notation FR := (forced t0 l).
+  Notation Inv := (Inv c t0 (forced t0 l)).
   Notation Pset := (Pset t0).
+  Let FR_pre : forall v r, t0 v = Some r -> forced t0 l v r := F_pre t0 l.
 
   Lemma walk_inv : forall s p a, l = p ++ s -> allocate_sops c s a0 = Ok a ->
     Inv (live s) Enone (ment s) a /\ (forall v, live s v -> exists r, ty a v = Some r) /\ mono a0 a.
@@ -119,18 +201,19 @@ Section Walk.
     induction s as [|o s IH]; intros p a Hl Hrun.
     - unfold allocate_sops in Hrun. simpl in Hrun. inversion Hrun; subst a.
       split; [|split].
-      + split; [exact Hsok0|]. split; [|split].
+      + split; [exact Hsok0|]. split; [|split; [|split]].
         * intros v r [[o [[] _]] _].
         * intros v1 v2 r [[o [[] _]] _].
         * intros v _. rewrite Hty0. reflexivity.
+        * intros v r [[o [[] _]] _].
       + intros v [[o [[] _]] _].
       + intros w q H. exact H.
     - rewrite allocate_sops_cons in Hrun.
       destruct (allocate_sops c s a0) as [a1|e] eqn:E1; simpl in Hrun; [|discriminate].
       assert (Hl1 : l = (p ++ [o]) ++ s). { rewrite <- app_assoc. exact Hl. }
       destruct (IH (p ++ [o]) a1 Hl1 eq_refl) as [HI1 [Hall1 Hm1]].
-      pose proof (facts_of_wf c l p o s Hwf Hio Hz Hl) as F.
-      destruct (op_step c t0 l o s a1 a F HI1 Hall1 Hrun) as [HI2 [Hall2 [Hm2 _]]].
+      pose proof (facts_of_wf c t0 l p o s Hwf Hio Hz Hl) as F.
+      destruct (op_step c t0 FR FR_pre o s a1 a F HI1 Hall1 Hrun) as [HI2 [Hall2 [Hm2 _]]].
       split; [exact HI2|]. split; [exact Hall2|]. intros w q H. apply Hm2. apply Hm1. exact H.
   Qed.
 
@@ -146,8 +229,8 @@ Section Walk.
       pose proof (IH s (p ++ [o]) a a1 Hl1 Hs E1) as Hm1.
       destruct (walk_inv (q ++ s) (p ++ [o]) a1 Hl1 E1) as [HI1 [Hall1 _]].
       assert (Hl2 : l = p ++ o :: (q ++ s)) by exact Hl.
-      pose proof (facts_of_wf c l p o (q ++ s) Hwf Hio Hz Hl2) as F.
-      destruct (op_step c t0 l o (q ++ s) a1 a' F HI1 Hall1 Hqs) as [_ [_ [Hm2 _]]].
+      pose proof (facts_of_wf c t0 l p o (q ++ s) Hwf Hio Hz Hl2) as F.
+      destruct (op_step c t0 FR FR_pre o (q ++ s) a1 a' F HI1 Hall1 Hqs) as [_ [_ [Hm2 _]]].
       intros w r H. apply Hm2. apply Hm1. exact H.
   Qed.
 
@@ -169,7 +252,7 @@ Section Walk.
   Variable af : astate.
   Hypothesis Hrun : allocate_sops c l a0 = Ok af.
 
-  Lemma final_sok : sok c t0 l af.
+  Lemma final_sok : sok c t0 af.
   Proof. destruct (walk_inv l [] af eq_refl Hrun) as [[Hs _] _]. exact Hs. Qed.
 
   (* every value live at a program point has a register *)
@@ -204,8 +287,8 @@ Section Walk.
     destruct (allocate_sops c s a0) as [a1|e] eqn:E1; simpl in Ha; [|discriminate].
     assert (Hl1 : l = (p ++ [o]) ++ s). { rewrite <- app_assoc. exact Hl. }
     destruct (walk_inv s (p ++ [o]) a1 Hl1 E1) as [HI1 [Hall1 _]].
-    pose proof (facts_of_wf c l p o s Hwf Hio Hz Hl) as F.
-    destruct (op_step c t0 l o s a1 a F HI1 Hall1 Ha) as [_ [Hall2 [Hm2 [Hdefs [Hhead _]]]]].
+    pose proof (facts_of_wf c t0 l p o s Hwf Hio Hz Hl) as F.
+    destruct (op_step c t0 FR FR_pre o s a1 a F HI1 Hall1 Ha) as [_ [Hall2 [Hm2 [Hdefs [Hhead _]]]]].
     destruct (Hdefs d Hd) as [rd Hrd]. destruct (Hall1 v Hv) as [rv Hrv].
     pose proof (Hm d rd Hrd) as Ed. pose proof (Hm v rv (Hm2 v rv Hrv)) as Ev.
     rewrite H1 in Ed. rewrite H2 in Ev. inversion Ed; inversion Ev; subst rd rv.
@@ -220,8 +303,8 @@ Section Walk.
     destruct (allocate_sops c s a0) as [a1|e] eqn:E1; simpl in Ha; [|discriminate].
     assert (Hl1 : l = (p ++ [o]) ++ s). { rewrite <- app_assoc. exact Hl. }
     destruct (walk_inv s (p ++ [o]) a1 Hl1 E1) as [HI1 [Hall1 _]].
-    pose proof (facts_of_wf c l p o s Hwf Hio Hz Hl) as F.
-    destruct (op_step c t0 l o s a1 a F HI1 Hall1 Ha) as [_ [_ [_ [Hdefs _]]]].
+    pose proof (facts_of_wf c t0 l p o s Hwf Hio Hz Hl) as F.
+    destruct (op_step c t0 FR FR_pre o s a1 a F HI1 Hall1 Ha) as [_ [_ [_ [Hdefs _]]]].
     destruct (Hdefs d Hd) as [r Hr]. exists r. apply Hm. exact Hr.
   Qed.
 
@@ -234,12 +317,34 @@ Section Walk.
     destruct (allocate_sops c s a0) as [a1|e] eqn:E1; simpl in Ha; [|discriminate].
     assert (Hl1 : l = (p ++ [o]) ++ s). { rewrite <- app_assoc. exact Hl. }
     destruct (walk_inv s (p ++ [o]) a1 Hl1 E1) as [HI1 [Hall1 _]].
-    pose proof (facts_of_wf c l p o s Hwf Hio Hz Hl) as F.
-    destruct (op_step c t0 l o s a1 a F HI1 Hall1 Ha) as [_ [_ [_ [Hdefs [_ Hties]]]]].
+    pose proof (facts_of_wf c t0 l p o s Hwf Hio Hz Hl) as F.
+    destruct (op_step c t0 FR FR_pre o s a1 a F HI1 Hall1 Ha) as [_ [_ [_ [Hdefs [_ [Hties _]]]]]].
     assert (Hyd : In y (defs o)).
     { unfold defs, sop_results. apply in_or_app. right. apply in_map_iff. exists (x, y). split; [reflexivity | exact Hin]. }
     destruct (Hdefs y Hyd) as [r Hr]. pose proof (Hties x y Hin) as Heq. rewrite Hr in Heq.
     rewrite (Hm x r Heq), (Hm y r Hr). split; [reflexivity | discriminate].
+  Qed.
+
+  Theorem live_forced : forall p s v r, l = p ++ s -> live s v -> ty af v = Some r -> Pset r -> forced t0 l v r.
+  Proof.
+    intros p s v r Hl Hv Hr HP. destruct (suffix_state p s af Hl Hrun) as [a [Ha Hm]].
+    destruct (walk_inv s p a Hl Ha) as [[_ [_ [_ [_ H5]]]] [Hall _]].
+    destruct (Hall v Hv) as [r1 Hr1]. pose proof (Hm v r1 Hr1) as E. rewrite Hr in E. inversion E; subst r1.
+    exact (H5 v r Hv Hr1 HP).
+  Qed.
+
+  Theorem def_forced : forall p o s d r, l = p ++ o :: s -> In d (defs o) -> ty af d = Some r -> Pset r -> forced t0 l d r.
+  Proof.
+    intros p o s d r Hl Hd Hr HP.
+    destruct (suffix_state p (o :: s) af Hl Hrun) as [a [Ha Hm]].
+    rewrite allocate_sops_cons in Ha.
+    destruct (allocate_sops c s a0) as [a1|e] eqn:E1; simpl in Ha; [|discriminate].
+    assert (Hl1 : l = (p ++ [o]) ++ s). { rewrite <- app_assoc. exact Hl. }
+    destruct (walk_inv s (p ++ [o]) a1 Hl1 E1) as [HI1 [Hall1 _]].
+    pose proof (facts_of_wf c t0 l p o s Hwf Hio Hz Hl) as F.
+    destruct (op_step c t0 FR FR_pre o s a1 a F HI1 Hall1 Ha) as [_ [_ [_ [Hdefs [_ [_ Hdf]]]]]].
+    destruct (Hdefs d Hd) as [rd Hrd]. pose proof (Hm d rd Hrd) as E. rewrite Hr in E. inversion E; subst rd.
+    exact (Hdf d r Hd Hrd HP).
   Qed.
 
   (* full statements under the satisfiability of the input's own constraints *)
@@ -252,9 +357,9 @@ Section Walk.
     intros p s v1 v2 r Hl Hv1 Hv2 Hne H1 H2.
     destruct (live_confined p s v1 v2 r Hl Hv1 Hv2 Hne H1 H2) as [HP|[Hzr Hr]].
     - exfalso. destruct Hforced as [Hf _].
-      apply (Hf p s Hl v1 v2 r Hv1 Hv2 Hne); apply (so_forced c t0 l af final_sok); assumption.
+      apply (Hf p s Hl v1 v2 r Hv1 Hv2 Hne); [exact (live_forced p s v1 r Hl Hv1 H1 HP) | exact (live_forced p s v2 r Hl Hv2 H2 HP)].
     - subst r. split; [exact Hzr|]. split; [reflexivity|]. rewrite <- Hz.
-      split; apply (so_zero_ty c t0 l af final_sok); assumption.
+      split; apply (so_zero_ty c t0 af final_sok); assumption.
   Qed.
 
   Theorem def_no_clobber : forall p o s d v r, l = p ++ o :: s -> In d (defs o) -> live s v -> d <> v ->
@@ -264,8 +369,10 @@ Section Walk.
     intros p o s d v r Hl Hd Hv Hne H1 H2.
     destruct (def_confined p o s d v r Hl Hd Hv Hne H1 H2) as [HP|[Hzr Hr]].
     - exfalso. destruct Hforced as [_ Hf].
-      apply (Hf p o s Hl d v r Hd Hv Hne); apply (so_forced c t0 l af final_sok); assumption.
+      apply (Hf p o s Hl d v r Hd Hv Hne); [exact (def_forced p o s d r Hl Hd H1 HP) |].
+      assert (Hl' : l = (p ++ [o]) ++ s) by (rewrite <- app_assoc; exact Hl).
+      exact (live_forced (p ++ [o]) s v r Hl' Hv H2 HP).
     - subst r. split; [exact Hzr|]. split; [reflexivity|]. rewrite <- Hz.
-      split; apply (so_zero_ty c t0 l af final_sok); assumption.
+      split; apply (so_zero_ty c t0 af final_sok); assumption.
   Qed.
 End Walk.
